@@ -494,6 +494,16 @@ func propParseExpr(args []string) string {
 			return fmt.Sprintf("%q groups as %s, the five precedence levels give %s", text, got, want)
 		}
 	}
+	// every call of the package-level ParseExpr returns a tree of its own (see scribble in stream_stmt.go)
+	if len(params) == 0 {
+		if first, err1 := influxql.ParseExpr(text); err1 == nil {
+			want := sexpExpr(first)
+			scribble(first)
+			if again, err2 := influxql.ParseExpr(text); err2 != nil || sexpExpr(again) != want {
+				return fmt.Sprintf("%q parsed a second time after the first result was edited gives another tree (%v)", text, err2)
+			}
+		}
+	}
 	return propExprRoundTrip(text, params, e)
 }
 
